@@ -209,3 +209,61 @@ def streamdata_script(r, idx, fate_vec=None):
     steps.append({"do": "run", "us": 300000})
     return {"cfg": cfg, "steps": steps, "tag": {"family": "streamdata", "idx": idx,
                                                  "fates": fate_vec is not None}}
+
+
+# ------------------------------------------------------------------------------------------------
+# C07
+
+def antiamp_script(r, idx, fate_vec=None):
+    fam = r.choice(["handshake", "handshake", "handshake", "vanish", "migrate", "resets", "shortinit", "retry"])
+    cfg = base_cfg(r, server=tcfg_menu(r), client=tcfg_menu(r))
+    cfg["server"]["idle_ms"] = 8000
+    cfg["client"]["idle_ms"] = 8000
+    cfg["sf_size"] = r.choice([0, 1000, 2500, 4000, 8000, 12000])
+    cfg["ch_size"] = r.choice([0, 0, 1500, 3000])
+    cfg["server"]["initial_mtu"] = r.choice([1200, 1200, 1452])
+    if cfg["server"]["initial_mtu"] > 1200:
+        cfg["server"]["min_mtu"] = 1200
+    cfg["max_datagrams"] = r.choice([1, 2, 10])
+    if fate_vec is not None:
+        cfg["fates_c2s"] = ["ok"] + [FATE_MAP[f] for f in fate_vec]
+        cfg["fates_s2c"] = fates(r, 6, 0.3)
+    else:
+        cfg["fates_c2s"] = fates(r, 10, 0.4)
+        cfg["fates_s2c"] = fates(r, 10, 0.3)
+    steps = [{"do": "connect", "n": 1}]
+    if fam == "retry":
+        cfg["incoming"] = r.choice(["retry", "validate"])
+    if fam == "handshake" or fam == "retry":
+        steps.append(workload(r))
+        steps.append({"do": "run_until", "what": "apps", "max_us": 20000000})
+    elif fam == "vanish":
+        # the client sends its first flight(s) and disappears: only server timers fire
+        steps.append({"do": "run", "us": r.choice([0, 5000, 15000, 30000])})
+        steps.append({"do": "blackhole", "n": 1})
+        steps.append({"do": "run", "us": 12000000})
+    elif fam == "migrate":
+        steps.append(workload(r, big=True))
+        steps.append({"do": "run_until", "what": "connected", "max_us": 10000000})
+        if r.random() < 0.5:
+            steps.append(workload(r, n=0, c=0, big=True))
+        for _ in range(r.choice([1, 1, 2, 3])):
+            steps.append({"do": "run", "us": r.choice([2000, 11000, 35000, 90000])})
+            k = r.random()
+            if k < 0.6:
+                steps.append({"do": "migrate", "n": 1, "addr": [r.choice([1, 1, 3]), r.choice([1, 2]), r.choice([50000, 50001, 7000])]})
+            else:
+                # attacker replays a genuine client datagram from another address
+                steps.append({"do": "replay", "dir": "c2s", "nth": -1 - r.randrange(3), "from": [9, r.choice([1, 2]), 9999]})
+        steps.append({"do": "run_until", "what": "apps", "max_us": 30000000})
+    elif fam == "resets":
+        cfg["min_reset_interval_ms"] = r.choice([20, 20, 5, 100])
+        steps.append({"do": "run_until", "what": "connected", "max_us": 10000000})
+        for _ in range(r.choice([3, 8, 20])):
+            steps.append({"do": "run", "us": r.choice([0, 1000, 4999, 5000, 19999, 20000, 20001, 100000])})
+            steps.append({"do": "raw_short", "to": r.choice([0, 0, 1]), "len": r.choice([17, 20, 21, 22, 37, 38, 39, 40, 41, 43, 100, 1200, 1500]), "salt": r.randrange(1 << 20)})
+    elif fam == "shortinit":
+        cfg["fates_c2s"] = ["shrink:%d" % r.choice([200, 600, 1100, 1199, 1199, 1200])] + cfg["fates_c2s"][1:]
+        steps.append({"do": "run", "us": 3000000})
+    steps.append({"do": "run", "us": 1000000})
+    return {"cfg": cfg, "steps": steps, "tag": {"family": "antiamp-" + fam, "idx": idx}}
